@@ -850,7 +850,9 @@ def call_method(I, recv, name, args, kw, node=None):
     if isinstance(recv, ByteArr):
         return _bytearray_method(I, recv, name, args, kw)
     if isinstance(recv, (str, bytes, tuple, int, float)):
-        if all(not isinstance(a, (SV, Env, Obj, ByteArr)) for a in args):
+        # the method is run by CPython only when every argument is an ordinary Python value (a symbolic or abstract argument
+        # would make CPython raise a TypeError that the modelled program never raises)
+        if all(_plain_py(a) for a in args) and all(_plain_py(a) for a in kw.values()):
             try:
                 r = getattr(recv, name)(*args, **kw)
                 if isinstance(r, (map, filter, zip)):
@@ -858,6 +860,9 @@ def call_method(I, recv, name, args, kw, node=None):
                 return r
             except (ValueError, UnicodeError, IndexError, TypeError, AttributeError) as e:
                 I.raise_(type(e).__name__, str(e))
+        if isinstance(recv, str) and name == "join" and isinstance(args[0], SymSeq):
+            # text built from a sequence of unknown length (log / error messages): some string
+            return I.fresh("str", "joined")
         if isinstance(recv, str) and name == "join":
             xs = list(I.iterate(args[0]))
             if any(isinstance(x, SV) for x in xs):
@@ -888,6 +893,16 @@ def call_method(I, recv, name, args, kw, node=None):
             recv.done = True
             return None
     raise Unsupported(f"method {name} on {type(recv).__name__}")
+
+
+def _plain_py(x, depth=0):
+    if x is None or isinstance(x, (str, bytes, bool, int, float, range)):
+        return True
+    if depth < 4 and isinstance(x, (list, tuple, set, frozenset)):
+        return all(_plain_py(y, depth + 1) for y in x)
+    if depth < 4 and isinstance(x, dict):
+        return all(_plain_py(k, depth + 1) and _plain_py(v, depth + 1) for k, v in x.items())
+    return False
 
 
 def _list_method(I, xs, name, args, kw):
